@@ -111,7 +111,8 @@ def run(ctx: common.Ctx):
     if corpus.exists():
         for f in sorted(corpus.glob("*.json")):
             for c in json.loads(f.read_text()):
-                cases.append((c["pps"], c["chunks"]))
+                if "chunks" in c:
+                    cases.append((c["pps"], c["chunks"]))
     ncorpus = len(cases)
     for L in range(0, maxlen + 1):
         for tup in itertools.product(ALPHABET, repeat=L):
@@ -483,6 +484,10 @@ def run_copy_history(ctx, drv):
         texts.append("".join(rng.choices(ALPHABET + ["b", "\x0c"], weights=[3, 3, 1, 2, 5, 1, 1, 1], k=rng.randint(3, 24))))
     lists = [[], ["T"], ["L0"], ["L1"], ["T", "L1"], ["L1", "T"]]
     cases = []
+    hfile = common.VERIF / "corpus" / "C15" / "copy_histories.json"
+    if hfile.exists():      # corpus first
+        for c in json.loads(hfile.read_text()):
+            cases.append((c["resource"], c["initial"], [tuple(r) for r in c["runs"]]))
     for t in texts:
         for a in lists:
             for b in lists:
@@ -795,6 +800,41 @@ def run_cli_z(ctx, drv):
         return ",".join(out) or "-"
 
     parser = nunavut.cli._make_parser()
+    # the post-processing surface of the command line is exactly what the model's `PPArgs` has a field for
+    pp_flags = sorted(o for a in parser._actions for o in a.option_strings if o.startswith("--pp-"))
+    modelled = ["--pp-max-emptylines", "--pp-run-program", "--pp-run-program-arg", "--pp-trim-trailing-whitespace"]
+    ctx.extra["cli_pp_flags"] = pp_flags
+    if pp_flags != modelled:
+        ctx.broken.append({"kind": "cli-surface", "what": "the --pp-* options of the real parser are not the ones the model covers", "parser": pp_flags, "model": modelled})
+    # the real languages' configuration (lang/properties.yaml) through the real Language objects
+    from nunavut.lang import LanguageContextBuilder
+    real = []
+    for name in ("c", "cpp", "py", "js", "html"):
+        lang = LanguageContextBuilder(include_experimental_languages=True).set_target_language(name).create().get_target_language()
+        try:
+            lim = int(lang.get_config_value("limit_empty_lines"))
+        except KeyError:
+            lim = None
+        real.append((name, lang, lim, bool(lang.get_config_value_as_bool("trim_trailing_whitespace"))))
+    rreqs, rthunks = [], []
+    for name, lang, lim, ctr in real:
+        for tr in (False, True):
+            for mx in (None, "0", "2"):
+                rreqs.append(f"cliz {int(tr)} {'N' if mx is None else int(mx)} N {0o444} {'N' if lim is None else lim} {int(ctr)}")
+                rthunks.append((name, lang, tr, mx))
+    rmodel = drv.ask(rreqs) if drv is not None else [None] * len(rreqs)
+    for (name, lang, tr, mx), m in zip(rthunks, rmodel):
+        argv = ["ns_dir"] + (["--pp-trim-trailing-whitespace"] if tr else []) + (["--pp-max-emptylines", mx] if mx is not None else [])
+        runner = object.__new__(ArgparseRunner)
+        runner._args = parser.parse_args(argv)
+        got = show(CodeGenerator._handle_post_processors(lang, runner._build_post_processor_list_from_args()))
+        lines = ",".join(t for t in got.split(",") if t[0] in "TL") or "-"
+        ctx.case(("cli-real-language", name, tr, mx), True)
+        ctx.count("cli_processor_lists_real_languages")
+        if m is not None:
+            ctx.traces += 1
+            if m != got + ";" + lines:
+                ctx.disagree("linebuf-cliz-language", {"language": name, "argv": argv}, m, got + ";" + lines)
     cases = [(tr, mx, pr, fm, lim, ctr) for tr in (False, True) for mx in (None, "0", "1", "3", "-1", "+2", "007", " 4 ")
              for pr in (None, 0, 2) for fm in (None, 0o644) for lim in (None, 0, 1, -1) for ctr in (False, True)]
     reqs = []
